@@ -52,6 +52,7 @@ type c20Result struct {
 	failed      int
 	hangs       int
 	garbage     int
+	stalls      int
 	crossed     []string
 	unexpected  []string
 	logProblems []string
@@ -112,6 +113,8 @@ func childrenOf(pid int) (workers, preexec int, pids []int) {
 	}
 	return
 }
+
+func tok0(idx, ci, k int) string { return fmt.Sprintf("t%d-%d-%d", idx, ci, k) }
 
 func c20Program(kind, tok string, rng *rand.Rand) string {
 	switch kind {
@@ -281,6 +284,38 @@ func runC20Scenario(c *Ctx, bin string, sc c20Scenario, idx int) (res c20Result)
 					}
 				}
 				tok := fmt.Sprintf("t%d-%d-%d", idx, ci, k)
+				if sc.mix == "stall" && k == 0 && ci < 2 {
+					kind = []string{"stall-headers", "stall-body"}[ci]
+				}
+				if kind == "stall-headers" || kind == "stall-body" {
+					// a request that is accepted but never completed: headers without the closing
+					// empty line, or a body shorter than its Content-Length. It outlives --timeout,
+					// so its worker has to be terminated: the client sees the connection closed.
+					// Waiting 6 x --timeout before calling it "never" keeps load effects out.
+					atomic.AddInt64(&outstanding, 1)
+					rec := reqRec{tok: tok0(idx, ci, k), kind: kind, start: time.Now().UnixNano()}
+					if conn, err := net.DialTimeout("tcp", fmt.Sprintf("127.0.0.1:%d", port), 5*time.Second); err == nil {
+						if kind == "stall-headers" {
+							conn.Write([]byte("POST /?t=" + rec.tok + " HTTP/1.1\r\nHost: x\r\nContent-Type: application/json\r\n"))
+						} else {
+							conn.Write([]byte("POST /?t=" + rec.tok + " HTTP/1.1\r\nHost: x\r\nContent-Type: application/json\r\nContent-Length: 64\r\n\r\n{\"VarInpu"))
+						}
+						conn.SetReadDeadline(time.Now().Add(time.Duration(6*sc.timeout) * time.Second))
+						_, rerr := io.ReadAll(conn)
+						if ne, ok := rerr.(net.Error); ok && ne.Timeout() {
+							rec.err = fmt.Sprintf("held: the connection was still open %d s after the request stalled (--timeout %d s)", 6*sc.timeout, sc.timeout)
+						}
+						conn.Close()
+					} else {
+						rec.err = "dial: " + err.Error()
+					}
+					rec.end = time.Now().UnixNano()
+					atomic.AddInt64(&outstanding, -1)
+					cmu.Lock()
+					recs = append(recs, rec)
+					cmu.Unlock()
+					continue
+				}
 				if kind == "garbage" {
 					// a connection that carries no HTTP request: bytes that are not a request line,
 					// a truncated request, or nothing at all. The worker that accepted it gives up
@@ -536,6 +571,11 @@ waitClients:
 			res.logProblems = append(res.logProblems, fmt.Sprintf("request %s was handled %d times", r.tok, n))
 		}
 		switch {
+		case r.kind == "stall-headers" || r.kind == "stall-body":
+			res.stalls++
+			if strings.HasPrefix(r.err, "held:") {
+				res.unexpected = append(res.unexpected, fmt.Sprintf("%s request %s: %s - its worker was not terminated", r.kind, r.tok, r.err))
+			}
 		case r.kind == "garbage":
 			res.garbage++
 		case r.kind == "hang":
@@ -593,7 +633,7 @@ func readPid(path string) int {
 }
 
 func checkC20(c *Ctx) {
-	c.rule = "the real ZnPMServer master and real worker processes (pmharness: pkg/server + playground handler, hook H1) are started per scenario; scenarios = configurations 1 <= init <= max <= 4 x client concurrency 1..16 x request mix (instant, busy loops, one / two / three requests that outlive --timeout at the same moment, connections that carry no HTTP request so that the accepting worker ends with status 0) x scripted kill -9 of one or several live workers at once x execve delay injected with strace (0/5/20/60/150 ms, widens the window between 'spawned' and 'registered') x slow worker start-up x traffic that begins while the master is still starting its initial workers. Monitors: /proc children of the master every 2 ms (live workers <= max at every sample; init <= live <= max at a quiescent point = no request outstanding and live set unchanged for 1.5 s); offline checker over the handler log written at the worker boundary (per-worker request intervals never overlap, every token handled once, response == own token, timed-out worker gone); race-detector reports of a -race build are recorded for information only. distinct_nontrivial = distinct (scenario parameters) + distinct 4-grams over {worker_start, req_start, req_end} events seen"
+	c.rule = "the real ZnPMServer master and real worker processes (pmharness: pkg/server + playground handler, hook H1) are started per scenario; scenarios = configurations 1 <= init <= max <= 4 x client concurrency 1..16 x request mix (instant, busy loops, one / two / three requests that outlive --timeout at the same moment, connections that carry no HTTP request so that the accepting worker ends with status 0, requests that stall after part of their headers / part of their body) x scripted kill -9 of one or several live workers at once x execve delay injected with strace (0/5/20/60/150 ms, widens the window between 'spawned' and 'registered') x slow worker start-up x traffic that begins while the master is still starting its initial workers. Monitors: /proc children of the master every 2 ms (live workers <= max at every sample; init <= live <= max at a quiescent point = no request outstanding and live set unchanged for 1.5 s); offline checker over the handler log written at the worker boundary (per-worker request intervals never overlap, every token handled once, response == own token, timed-out worker gone); race-detector reports of a -race build are recorded for information only. distinct_nontrivial = distinct (scenario parameters) + distinct 4-grams over {worker_start, req_start, req_end} events seen"
 	c.assumptions = []string{"a child that has been forked but has not exec'd yet is reported separately and not counted as a live worker", "strace execve delay injection only delays, it does not change behaviour", "not reaching a quiescent point within 60 s is inconclusive, not a violation"}
 	if _, err := exec.LookPath("strace"); err != nil {
 		c.Inconclusive("strace not found: " + err.Error())
@@ -632,6 +672,7 @@ func checkC20(c *Ctx) {
 		add(c20Scenario{initP: 4, maxP: 4, timeout: 2, clients: 6, requests: 4, mix: "hang3"})
 		add(c20Scenario{initP: 3, maxP: 3, timeout: 2, clients: 6, requests: 8, mix: "busy", kills: 2, killBurst: 2})
 		add(c20Scenario{initP: 2, maxP: 3, timeout: 2, clients: 4, requests: 6, mix: "garbage"})
+		add(c20Scenario{initP: 2, maxP: 3, timeout: 1, clients: 4, requests: 5, mix: "stall"})
 		add(c20Scenario{initP: 3, maxP: 3, timeout: 2, clients: 6, requests: 6, mix: "busy", execDelay: 60, early: true})
 		add(c20Scenario{initP: 2, maxP: 4, timeout: 2, clients: 8, requests: 6, mix: "mixed", execDelay: 40, early: true})
 		add(c20Scenario{initP: 4, maxP: 4, timeout: 2, clients: 4, requests: 6, mix: "busy", early: true})
@@ -652,6 +693,7 @@ func checkC20(c *Ctx) {
 				add(c20Scenario{initP: initP, maxP: maxP, timeout: 2, clients: 8, requests: 10, mix: "mixed", kills: 4, execDelay: 20})
 				add(c20Scenario{initP: initP, maxP: maxP, timeout: 2, clients: 6, requests: 4, mix: "hang2"})
 				add(c20Scenario{initP: initP, maxP: maxP, timeout: 2, clients: 5, requests: 6, mix: "garbage"})
+				add(c20Scenario{initP: initP, maxP: maxP, timeout: 1, clients: 4, requests: 5, mix: "stall"})
 				add(c20Scenario{initP: initP, maxP: maxP, timeout: 2, clients: 6, requests: 6, mix: "busy", execDelay: 60, early: true})
 				add(c20Scenario{initP: initP, maxP: maxP, timeout: 2, clients: 6, requests: 6, mix: "mixed", early: true})
 				add(c20Scenario{initP: initP, maxP: maxP, timeout: 2, clients: 6, requests: 4, mix: "hang3", execDelay: 20})
@@ -734,6 +776,7 @@ func checkC20(c *Ctx) {
 		c.Count("requests_lost_to_scripted_kills", int64(r.failed))
 		c.Count("requests_outliving_timeout", int64(r.hangs))
 		c.Count("connections_without_http_request", int64(r.garbage))
+		c.Count("requests_stalled_mid_transfer", int64(r.stalls))
 		c.Count("ordinary_requests_that_hit_the_server_timeout_not_judged", int64(r.slowVictims))
 		for g := range r.events4 {
 			grams[g] = true
